@@ -781,9 +781,9 @@ def ob_dicts():
 
 def ob_strings():
     def h():
-        P = {'S0': sym_str(choose(3, 'l0'), 'S0', alphabet='aB _'), 'S1': sym_str(1, 'S1', alphabet='aB _'), 'I0': sym_int('I0', -3, 3)}
+        P = {'S0': sym_str(choose(3, 'l0'), 'S0', alphabet='aB _'), 'S1': sym_str(1, 'S1', alphabet='aB _'), 'I0': sym_int('I0', -3, 3), 'I1': sym_int('I1', -3, 3)}
         k = choose(14, 'prog')
-        s0, s1, i0 = ('var', 'S0'), ('var', 'S1'), ('var', 'I0')
+        s0, s1, i0, i1 = ('var', 'S0'), ('var', 'S1'), ('var', 'I0'), ('var', 'I1')
         progs = [
             [('assign', 'x', ('bin', '+', s0, s1)), ('assign', 'y', ('bin', '==', s0, s1))],
             [('assign', 'x', ('meth', s0, 'to_upper', [], {})), ('assign', 'y', ('meth', s0, 'to_lower', [], {}))],
@@ -797,7 +797,7 @@ def ob_strings():
             [('assign', 'x', ('idx', s0, i0))],
             [('assign', 'x', ('meth', ('str', '@0@-@1@-@0@'), 'format', [s0, i0], {}))],
             [('assign', 'x', ('fstr', 'p@S0@q@I0@'))],
-            [('assign', 'x', ('meth', s0, 'substring', [('num', 1)], {})), ('assign', 'y', ('meth', s0, 'substring', [('num', 0), ('num', 1)], {}))],
+            [('assign', 'x', ('meth', s0, 'substring', [i0], {})), ('assign', 'y', ('meth', s0, 'substring', [i0, i1], {})), ('assign', 'z', ('meth', ('str', 'foobar'), 'substring', [i0, i1], {}))],
             [('assign', 'x', ('bin', '/', s0, s1))],
         ]
         differential(progs[k], P)
@@ -823,7 +823,7 @@ def ob_numbers():
 
 def ob_control():
     def h():
-        P = {'I0': sym_int('I0'), 'I1': sym_int('I1'), 'I2': sym_int('I2', 0, 3), 'B0': sym_bool('B0'), 'B1': sym_bool('B1')}
+        P = {'I0': sym_int('I0'), 'I1': sym_int('I1'), 'I2': sym_int('I2', 0, 3), 'I3': sym_int('I3', -1, 4), 'I4': sym_int('I4', 0, 3), 'B0': sym_bool('B0'), 'B1': sym_bool('B1')}
         k = choose(7, 'prog')
         i0, i1, i2, b0, b1 = ('var', 'I0'), ('var', 'I1'), ('var', 'I2'), ('var', 'B0'), ('var', 'B1')
         progs = [
@@ -835,7 +835,7 @@ def ob_control():
                                            [('if', [(('bin', '>', ('var', 'i'), i1), [('break',)])], None), ('pluseq', 't', ('var', 'i'))]), ('assign', 'last', ('var', 'i'))],
             [('assign', 't', ('num', 0)), ('foreach', ['i'], ('call', 'range', [i2], {}), [('pluseq', 't', ('var', 'i'))])],
             [('assign', 'a', ('arr', [i0, i1])), ('foreach', ['i'], ('var', 'a'), [('pluseq', 'a', ('var', 'i'))]), ('assign', 'n', ('meth', ('var', 'a'), 'length', [], {}))],
-            [('assign', 't', ('arr', [])), ('foreach', ['i'], ('call', 'range', [('num', 1), ('num', 6), ('num', 2)], {}), [('pluseq', 't', ('var', 'i'))]), ('continue',)],
+            [('assign', 't', ('arr', [])), ('foreach', ['i'], ('call', 'range', [i2, ('var', 'I3'), ('var', 'I4')], {}), [('pluseq', 't', ('var', 'i'))]), ('continue',)],
         ]
         differential(progs[k], P)
     return h
